@@ -28,6 +28,28 @@ var c08Steps = []hv.Step{
 	{Op: "Copy", N: 5},              // body bytes streamed with io.Copy
 	{Op: "WH", N: 200},              // an explicit 200 commits status and headers like any other explicit status
 	{Op: "Flush"},                   // flushes through whatever the writer offers (http.Flusher or a ResponseController)
+	{Op: "Wchk", N: 2},              // a write whose result is checked: anything but (2, nil) ends the handler
+	{Op: "IfH", K: "X-A", V: "1", N: 2}, // two more bytes if the handler reads X-A: 1 back from its own response headers
+}
+
+// progWrites is what a program writes, by the net/http contract: whether it sends the header itself, the body bytes
+// and the number of writes. X-A is only ever touched through w.Header().Set/Del, so what IfH reads back is known.
+func progWrites(prog []hv.Step) (explicit bool, total, writes int) {
+	xa := ""
+	for _, s := range prog {
+		switch {
+		case s.Op == "WH" && s.N >= 200:
+			explicit = true
+		case s.Op == "Set" && s.K == "X-A":
+			xa = s.V
+		case s.Op == "Del" && s.K == "X-A":
+			xa = ""
+		case s.Op == "W" || s.Op == "Copy" || s.Op == "Wchk" || s.Op == "IfH" && xa == s.V:
+			total += s.N
+			writes++
+		}
+	}
+	return
 }
 
 // headTrialRecovered: the GET handler program panics somewhere and a recovery option answers; HEAD must still
@@ -119,16 +141,7 @@ func headTrialFlusher(prog []hv.Step) (class, obs, exp string) {
 	if len(h.Body) != 0 {
 		return "head-body-leaks", fmt.Sprintf("HEAD delivered %d body bytes", len(h.Body)), "0 body bytes"
 	}
-	explicit, total, writes := false, 0, 0
-	for _, s := range prog {
-		if s.Op == "WH" && s.N >= 200 {
-			explicit = true
-		}
-		if s.Op == "W" || s.Op == "Copy" {
-			total += s.N
-			writes++
-		}
-	}
+	explicit, total, writes := progWrites(prog)
 	if !explicit && writes > 0 {
 		if cl := h.Header.Get("Content-Length"); cl != strconv.Itoa(total) {
 			return "content-length-wrong", "HEAD Content-Length=" + cl + " (as sent)", "Content-Length=" + strconv.Itoa(total) + " (bytes the handler wrote)"
@@ -190,22 +203,13 @@ func headTrialOn(prog []hv.Step, mode string) (class, obs, exp string, outcome s
 			if (s.Op == "Set" || s.Op == "Del" || s.Op == "KSet") && sent {
 				class = "head-headers-differ:set-after-write"
 			}
-			if s.Op == "W" || s.Op == "Copy" || s.Op == "WH" && s.N >= 200 {
+			if s.Op == "W" || s.Op == "Copy" || s.Op == "Wchk" || s.Op == "WH" && s.N >= 200 {
 				sent = true
 			}
 		}
 		return class, "HEAD headers as sent: " + hh, "GET headers as sent: " + gh, outcome
 	}
-	explicit, total, writes := false, 0, 0
-	for _, s := range prog {
-		if s.Op == "WH" && s.N >= 200 {
-			explicit = true
-		}
-		if s.Op == "W" || s.Op == "Copy" {
-			total += s.N
-			writes++
-		}
-	}
+	explicit, total, writes := progWrites(prog)
 	if !explicit && writes > 0 {
 		if cl := h.Header.Get("Content-Length"); cl != strconv.Itoa(total) {
 			return "content-length-wrong", "HEAD Content-Length=" + cl, "Content-Length=" + strconv.Itoa(total) + " (bytes the handler wrote)", outcome
